@@ -102,16 +102,17 @@ configuration `c` of the run with pauses to a configuration `d` of the reference
 
 /-- **transparency (partial): the run with pauses is simulated by the run of its reference history.**
 For every program, every number of awaited futures and every history `evs` consisting of ticks, `pause` and `play` requests
-at arbitrary positions, and `resume` / `complete` / awaitable-done events at quiet positions (`quiet`: the stepping task is
+at arbitrary positions, and `resume` / `complete` / awaitable-done / `call_soon` / non-raising-callback events at quiet
+positions (`quiet`: the stepping task is
 not suspended on a pause future, and the current wait was not interrupted by a pause request that the stepping task has
-still to notice; a pause may be requested but not yet in effect) — `admissible`; no kill, fail, cancel or call_soon —, the
+still to notice; a pause may be requested but not yet in effect) — `admissible`; no kill, fail, cancel, failing callback —, the
 configuration reached by `evs` and the configuration reached by the reference history `unpaused … evs` (no pause, no play,
 fewer ticks) are related by `Sim` — provided no tick of the reference run exhausts the fuel of the model's step loop
 (`fuelOk`: the real code would not terminate there).
 
 Missing with respect to `C05_transparent_full`: wake-up requests that arrive while the process is held by a pause (or
 released by play but the stepping task not yet woken), or between a pause request that interrupted a pending wait and the
-next tick; histories with kill / fail / cancel / call_soon. -/
+next tick; histories with kill / fail / cancel / a failing scheduled callback. -/
 theorem C05_transparent_partial (P : Prog) (nf : Nat) (evs : List Ev)
     (hadm : admissible P (init nf) evs = true)
     (hfuel : fuelOk P (init nf) (unpaused P (init nf) evs) = true) :
